@@ -329,7 +329,10 @@ impl Builder {
 
     fn prop_query_param(&self, prop: &spec::Property) -> Parameter {
         Parameter::Query {
-            parameter_data: self.prop_param_data(prop, prop.required.unwrap_or(false)),
+            parameter_data: self.prop_param_data(
+                prop,
+                prop.required.or(prop.schema.required).unwrap_or(false),
+            ),
             allow_reserved: false,
             style: Default::default(),
             allow_empty_value: None,
@@ -338,7 +341,10 @@ impl Builder {
 
     fn prop_header_param(&self, prop: &spec::Property) -> Parameter {
         Parameter::Header {
-            parameter_data: self.prop_param_data(prop, prop.required.unwrap_or(false)),
+            parameter_data: self.prop_param_data(
+                prop,
+                prop.required.or(prop.schema.required).unwrap_or(false),
+            ),
             style: Default::default(),
         }
     }
@@ -347,7 +353,7 @@ impl Builder {
         Header {
             description: prop.desc.clone(),
             style: Default::default(),
-            required: prop.required.unwrap_or(false),
+            required: prop.required.or(prop.schema.required).unwrap_or(false),
             deprecated: None,
             format: ParameterSchemaOrContent::Schema(self.schema(&prop.schema)),
             example: None,
